@@ -147,4 +147,8 @@ def getEncodingInfoD (L : Lib) (response : Option RespD) (text : Option Doc) (tr
       | .error e => .error e
       | .ok metaI => .ok (assemble tt (httpOf (response.map RespD.head)) xml metaI tryEnc)
 
+/-- `EncodingInfo.__str__` (`:139-144`): the guessed encoding itself or the empty string -/
+def Info.str (i : Info) : Cps :=
+  if truthy i.encoding then i.encoding.getD [] else []
+
 end CssVerif.Encutils
